@@ -124,7 +124,8 @@ def histories(ctx):
     rng = ctx.rng
     hs = []
     for i in range(ctx.scale(70, 800)):
-        spec = engine.gen_spec(rng, nt=(2, 7), after_p=0.2, after_needs_prods=True, user_markers=True, marks=(("skip", 0.05),))
+        spec = engine.gen_spec(rng, nt=(2, 7), after_p=0.2, after_needs_prods=True, user_markers=True, marks=(("skip", 0.05),),
+                               link_p=0.3, dirprod_p=0.3, hashed_p=0.25)
         hs.append(histgen.random_history(rng, spec, rng.randint(4, 10), EDITS, CFGS, final_build={}))
     return hs
 
@@ -140,7 +141,7 @@ def run(ctx):
                 "identical rewrite / touch / delete input, bump / revert module, tamper / delete product, rewire dependency, add / remove task), final plain build; "
                 "oracle = product bytes vs F evaluated from scratch along the DAG; non-trivial = ≥2 builds, ≥1 edit and a later successful build that executed something")
     f11b_witness(ctx)
-    engine.run_campaign(ctx, histories(ctx), oracle, nontrivial=nontrivial, sel_eval=engine.sel_eval)
+    engine.run_campaign(ctx, histories(ctx), oracle, nontrivial=nontrivial, sel_eval=engine.sel_eval, rotate_seeds=True)
 
 
 def replay(ctx, obj):
